@@ -46,6 +46,21 @@ def run_case(case):
     try:
         ds = _impl["Dataset"].from_raw_list(am.raw_dataset(case["D"]))
         ss = _impl["SS"](core.scheme_float(B, T, unit))
+        if case.get("ops"):
+            # history: the matrices and the table are computed once, the dataset is modified in place, then measured
+            _impl["P"].pairwise_cost_matrix(ds.get_positions(), ss)
+            _impl["P"].pairwise_cost_matrix(ds.get_bucket_ids(), ss)
+            ds.unified_rankings()
+            for op in case["ops"]:
+                if op["op"] == "remove_elements":
+                    ds.remove_elements({am.value(x) for x in op["S"]})
+                elif op["op"] == "remove_rate":
+                    ds.remove_elements_rate_presence_lower_than(op["p"] / op["q"])
+                else:
+                    ds.remove_empty_rankings()
+            rec["D"] = [am.ranking(r) for r in ds.rankings]
+            case = dict(case)
+            case["D"] = rec["D"]
         U = grids.universe(case["D"])
         n = max(U)
         exact = True
@@ -74,8 +89,22 @@ def run_case(case):
         rec["exact"] = 1 if exact else 0
         rec["out"] = "table"
     except Exception as ex:
-        rec["out"] = "error:" + type(ex).__name__
+        rec["out"] = "setup-failed" if case.get("ops") else "error:" + type(ex).__name__
     return rec
+
+
+def _mut_cases(dss, schemes):
+    out = []
+    for k, D in enumerate(dss):
+        U = grids.universe(D)
+        ops = [{"op": "remove_rate", "p": 1, "q": 2}]
+        if [] in D and len(D) > 1:
+            ops.append({"op": "remove_empty"})
+        if len(U) >= 2:
+            ops.append({"op": "remove_elements", "S": [U[k % len(U)]]})
+        for op in ops:
+            out.append({"D": D, "naming": ["ints", "letters"][k % 2], "sch": list(schemes[k % len(schemes)]), "ops": [op]})
+    return out
 
 
 def _nt(rec):
@@ -104,6 +133,9 @@ def stages(tier, rng, only=None):
     sch2 = sch + ac.grid_sample(rng, 12)
     out.append(Stage("random", "Trace_Cost", run_case,
                      lambda: _cases([ac.random_dataset(rng, 7, 6) for _ in range(n_rand)], sch2, nm, False), _nt, _init))
+    out.append(Stage("after_mutation", "Trace_Cost", run_case,
+                     lambda: _mut_cases(grids.datasets(3, 2) + [ac.random_dataset(rng, 6, 5, nmin=2) for _ in range(n_rand)],
+                                        sch), _nt, _init))
     if tier == "thorough":
         out.append(Stage("grid3x3", "Trace_Cost", run_case, lambda: _cases(grids.datasets(3, 3), sch2, nm, False),
                          _nt, _init))
